@@ -63,6 +63,9 @@ Section DFT1.
   Lemma geom (a : F) n : (a - 1) * bsum n (fun k => fpow a k) = fpow a n - 1.
   Proof. induction n as [|n IH]; [cbn; ring|]. rewrite bsum_S. cbn [fpow]. transitivity ((a - 1) * bsum n (fun k => fpow a k) + (a - 1) * fpow a n); [ring|]. rewrite IH. ring. Qed.
 
+  Lemma dft_zero_mode m (v : F) (u : nat -> F) : dft m v u 0 = bsum m u.
+  Proof. unfold dft. apply bsum_ext. intros j _. rewrite Nat.mul_0_r. cbn [fpow]. ring. Qed.
+
   Variable n : nat.
   Variables w w' : F.
   Hypothesis n_pos : (0 < n)%nat.
@@ -193,6 +196,18 @@ Section DFT1.
       rewrite <- fpow_add. replace ((j + (n - s)) * k + s * k)%nat with (j * k + n * k)%nat by nia.
       rewrite fpow_add, (fpow_mul F w n k), w_n, fpow_1. ring.
   Qed.
+  Lemma dft_add (u v : nat -> F) k : dft n w (fun j => u j + v j) k = dft n w u k + dft n w v k.
+  Proof. unfold dft. rewrite <- bsum_add. apply bsum_ext. intros; ring. Qed.
+
+  (* a real harmonic c e^{+i theta_j} + c' e^{-i theta_j} (theta_j = 2 pi m j / n, 0 < m < n, 2m <> n): n*c at mode m, n*c' at mode n - m *)
+  Theorem dft_two_characters (c c' : F) m k : (0 < m < n)%nat -> (2 * m <> n)%nat -> (k < n)%nat ->
+    dft n w (fun j => c * fpow w' (j * m) + c' * fpow w' (j * (n - m))) k
+    = if (k =? m)%nat then fz (Z.of_nat n) * c else if (k =? n - m)%nat then fz (Z.of_nat n) * c' else 0.
+  Proof.
+    intros Hm H2 Hk. rewrite dft_add, !dft_single_mode by lia.
+    destruct (Nat.eqb_spec k m), (Nat.eqb_spec k (n - m)); try lia; ring.
+  Qed.
+
   (* dft depends on the index only modulo n *)
   Lemma dft_mod (u : nat -> F) k : dft n w u k = dft n w u (k mod n).
   Proof.
